@@ -127,9 +127,13 @@ def gen_case(rng, idx, tier):
             full['moments'] = spec['moments'] + [late_moment]
     ops['late_exptset'] = late_moment is not None
     DR._calibrate(full, rng)
+    # the support of one scenario is still a preliminary (wrong) set while the model is
+    # formulated / solved for the first time and gets its real set, through a scenario
+    # selector, only afterwards (decided by a generator of its own: older cases keep their draws)
+    hseed = int(rng.integers(1 << 30))
+    ops['late_support'] = bool(ops['mid'] and np.random.default_rng(hseed + 2).random() < 0.35)
     return {'front': 'dro', 'spec': spec, 'full': full, 'ops': ops, 'wrong': wrong,
-            'late_moment': late_moment,
-            'hseed': int(rng.integers(1 << 30))}
+            'late_moment': late_moment, 'hseed': hseed}
 
 
 def supports_of(B):
@@ -414,6 +418,8 @@ def run_dro(spec, ctx):
     if rF[0] != 'optimal':
         return {'status': 'skip', 'reason': 'fresh model not optimal'}
     events = []
+    hr2 = np.random.default_rng(spec['hseed'] + 1)
+    late_sup = []
 
     def after_sets(B, rng):
         if ops['second_amb']:
@@ -433,6 +439,12 @@ def run_dro(spec, ctx):
                     *S.build_rsome(base['supports'][s2], B.z, hr))
             ctx.count('distractors_defined')
             events.append('support_redefined')
+        if ops.get('late_support'):
+            s = int(hr2.integers(base['S']))
+            late_sup.append(s)
+            DR.scen_selector(B.fset, base, [s], hr2).suppset(
+                *S.build_rsome(spec['wrong'][s], B.z, hr2))
+            ctx.count('distractors_defined')
         if ops.get('redefine') and base['S'] >= 2 and base['pset']['t'] != 'fixed' and \
                 hr.random() < 0.7:
             # a preliminary, tighter probability set that the real probset() call (made right
@@ -482,6 +494,13 @@ def run_dro(spec, ctx):
             BH.pending_adapt = None
             events.append('late_adapt_%s_after_formulation' % late_ad)
             ctx.count('late_adapt_dro')
+        if late_sup:
+            # the real support(s) replace the preliminary one after the formulations above
+            for s2 in (range(base['S']) if base['shared'] else late_sup):
+                DR.scen_selector(BH.fset, base, [s2], hr2).suppset(
+                    *S.build_rsome(base['supports'][s2], BH.z, hr2))
+            events.append('late_suppset')
+            ctx.count('late_suppset_dro')
         if BH.pending_forall:
             # constraints that were in the model (with the default set) through the formulations
             # above get their own ambiguity set only now
